@@ -176,3 +176,56 @@ def _me3(kind, perm):
 
 ME3_VEC = [_me3(kind, p) for kind, ks in (("v", "abc"), ("s", "asb")) for p in itertools.permutations(ks)]
 ME3_MAT = [_me3(kind, p) for kind in "mn" for p in itertools.permutations("PQR")]
+
+
+# ---- multi-domain-TARGET sums and DIFFERENCES (linear: SumOperator with negated summands; nonlinear: _OpSum of a
+#      negated operator), scaling of multi-target operators, and a likelihood living on the two target keys -----
+def _sub_fields(a, b):
+    return a.flexible_addsub(b, True) if a.jac is None else a - b
+
+
+def _msub_ref(E, xp, a, b):
+    r = dict(a)
+    for k, v in b.items():
+        r[k] = r[k] - v if k in r else -v
+    return r
+
+
+_MM = {("Mu", "Mu"): "Mu", ("Muv", "Muv"): "Muv", ("Muv", "Mu"): "Muv", ("Mu", "Muv"): "Muv"}
+X.NODES["msub"] = X.Node("msub", 2, lambda t1, t2: _MM.get((t1, t2)), lambda E, a, b: a - b,
+                         lambda E, a, b: _sub_fields(a, b), _msub_ref)
+X.NODES["pairsub"] = X.Node("pairsub", 2, lambda t1, t2: "Muv" if (t1, t2) == ("S", "S") else None,
+                            lambda E, a, b: a.ducktape_left("u") - b.ducktape_left("v"),
+                            lambda E, a, b: _sub_fields(X._adapt(E, a, "u"), X._adapt(E, b, "v")),
+                            lambda E, xp, a, b: {"u": a, "v": -b})
+X.NODES["mscale"] = X.Node("mscale", 1, lambda t: t if t in ("Mu", "Muv") else None,
+                           lambda E, e: (-E.A["s"]) * e, lambda E, l: (-E.A["s"]) * l,
+                           lambda E, xp, v: {k: -E.A["s"] * z for k, z in v.items()})
+
+
+def _gauss_m(E):
+    def make():
+        ift = E.ift
+        dat = ift.MultiField.from_dict({"u": E.dF, "v": E.cF})
+        return ift.GaussianEnergy(data=dat)
+    return _obj(E, "gaussM", make)
+
+
+def _gauss_m_ref(E, xp, v):
+    ru, rv = v["u"] - E.A["d"], v["v"] - E.A["c"]
+    return 0.5 * (xp.sum(xp.real(ru * xp.conj(ru))) + xp.sum(xp.real(rv * xp.conj(rv))))
+
+
+def _gauss_m_metric(E, root, path, inp, keys, cplx):
+    J = X.ref_jacobian(lambda d, xp: X.ref_sub(root, path + (1,), E, xp, d), inp, keys, cplx)
+    return J.T @ J
+
+
+def _gauss_m_guard(E, v):
+    if max(np.abs(np.asarray(z)).max() for z in v.values()) > 40.:
+        raise X.Outside("argument too large")
+
+
+X.NODES["gaussM"] = X.Node("gaussM", 1, lambda t: "E" if t == "Muv" else None,
+                           lambda E, e: _gauss_m(E) @ e, lambda E, l: _gauss_m(E)(l), _gauss_m_ref, _gauss_m_guard)
+X.METRIC_HOOKS["gaussM"] = _gauss_m_metric
